@@ -33,3 +33,9 @@ import pygal_on_ready  # noqa: E402
 
 # taskiq/scheduler/scheduler.py: TaskiqScheduler.on_ready (C16), monadic backend over PyStm.v / PyPreludeSched.v
 SPECS["on_ready"] = pygal_on_ready.SPEC
+
+import pygal_sched_loop  # noqa: E402
+
+# taskiq/cli/scheduler/run.py: get_schedules, get_all_schedules, delayed_send and one iteration of run_scheduler_loop (C15),
+# monadic backend over PyStm.v / PyPreludeLoop.v
+SPECS["sched_loop"] = pygal_sched_loop.SPEC
